@@ -24,9 +24,9 @@ LEVEL = 'exploration'
 
 
 # ---------------------------------------------------------------- fixed evidence sets
-BOUNDS_A = {1: [(-1.0, 3.0)], 2: [(-1.0, 3.0), (0.0, 2.0)]}
+BOUNDS_A = {1: [(-1.0, 3.0)], 2: [(-1.0, 3.0), (0.0, 2.0)], 3: [(-1.0, 3.0), (0.0, 2.0), (-2.0, 0.5)]}
 # bounds that are not binary fractions: a bounds test written as |x - centre| <= half-width rounds differently there
-BOUNDS_B = {1: [(0.2, 0.9)], 2: [(0.1, 0.7), (-0.3, 1.1)]}
+BOUNDS_B = {1: [(0.2, 0.9)], 2: [(0.1, 0.7), (-0.3, 1.1)], 3: [(0.1, 0.7), (-0.3, 1.1), (0.6, 2.3)]}
 BOUNDS = dict(BOUNDS_A)
 
 
@@ -56,7 +56,7 @@ def evidence(dim, n, fn):
 
 def fit(dim, n, fn, hyper):
     from elfi.methods.bo.gpy_regression import GPyRegression
-    names = ['a', 'b'][:dim]
+    names = ['a', 'b', 'c'][:dim]
     gp = GPyRegression(names, bounds={k: BOUNDS[dim][i] for i, k in enumerate(names)},
                        optimizer=('scg' if hyper != 'lbfgsb' else 'lbfgsb'), max_opt_iters=30)
     X, y = evidence(dim, n, fn)
@@ -74,8 +74,8 @@ class IndepNormalPrior:
     """Analytic prior used as the posterior's prior: independent N(m_j, s_j)."""
 
     def __init__(self, dim):
-        self.m = np.array([1.0, 0.5][:dim])
-        self.s = np.array([2.0, 1.5][:dim])
+        self.m = np.array([1.0, 0.5, -0.25][:dim])
+        self.s = np.array([2.0, 1.5, 1.25][:dim])
         self.dim = dim
 
     def logpdf(self, x):
@@ -105,7 +105,7 @@ def grid(dim, dense):
     per = []
     for lo, hi in BOUNDS[dim]:
         eps = 1e-9 * (hi - lo)
-        inside = list(np.linspace(lo, hi, 7 if dense else 5))
+        inside = list(np.linspace(lo, hi, (7 if dense else 5) if dim < 3 else 3))
         inside[0], inside[-1] = lo, hi          # the bounds themselves, exactly
         per.append({'in': inside, 'out': [lo - eps, hi + eps, lo - 1.0, hi + 5.0,
                                           float(np.nextafter(lo, -np.inf)), float(np.nextafter(hi, np.inf))]})
@@ -202,9 +202,28 @@ def run_gp(case):
             if not np.allclose(g, num, rtol=1e-4, atol=1e-6 * (1 + np.abs(num).max())):
                 return bad('C10:posterior:gradient-differs-from-derivative', dict(what, x=x.tolist(), got=g.tolist(),
                                                                                  numeric=num.tolist()))
+            # the same gradient whatever the shape of the query point
+            gshapes = [x[None, :]] + ([np.float64(x[0]), float(x[0])] if dim == 1 else [])
+            for xs in gshapes:
+                g2 = np.asarray(post.gradient_logpdf(xs), dtype=float)
+                if g2.size != dim or not np.allclose(g2.reshape(-1), g, rtol=1e-9, atol=1e-12):
+                    return bad('C10:posterior:gradient-depends-on-input-shape',
+                               dict(what, x=x.tolist(), shape=list(np.shape(xs)), got=g2.tolist(), as_1d=g.tolist()))
+        # gradient of a batch mixing inside and outside points: the inside rows equal the single-point gradients
+        GB = np.asarray(post.gradient_logpdf(XS), dtype=float)
+        if GB.shape != (len(pts), dim):
+            return bad('C10:posterior:batch-gradient-shape', dict(what, shape=list(GB.shape)))
+        for i, (x, inside) in enumerate(pts):
+            if not inside:
+                continue
+            g1 = np.asarray(post.gradient_logpdf(x), dtype=float).reshape(-1)
+            gtol = 1e-7 * (1.0 + np.abs(g1).max()) * (1.0 + tt[i] ** 2)
+            if not np.all(np.abs(GB[i] - g1) <= gtol):
+                return bad('C10:posterior:batch-gradient-differs-from-single-points',
+                           dict(what, x=x.tolist(), batch=GB[i].tolist(), single=g1.tolist()))
         # integer-typed query points are legal inputs: same answers as the float-typed point
         for xi in ([np.array([1]), np.array([0]), np.array([2])] if dim == 1 else
-                   [np.array([1, 1]), np.array([0, 1]), np.array([2, 1])]):
+                   [np.array([1, 1, 0][:dim]), np.array([0, 1, 0][:dim]), np.array([2, 1, -1][:dim])]):
             nev += 1
             xf = xi.astype(float)
             vi, vf = float(np.ravel(post.logpdf(xi))[0]), float(np.ravel(post.logpdf(xf))[0])
@@ -268,7 +287,7 @@ def run_history(case):
     from elfi.methods.bo.gpy_regression import GPyRegression
     dim = case['dim']
     use_bounds(case)
-    names = ['a', 'b'][:dim]
+    names = ['a', 'b', 'c'][:dim]
     gp = GPyRegression(names, bounds={k: BOUNDS[dim][i] for i, k in enumerate(names)}, max_opt_iters=10)
     refX = np.zeros((0, dim))
     refY = np.zeros((0, 1))
@@ -339,6 +358,13 @@ def run(ctx):
                                   'thresholds': ['min', 'explicit', 'zero'] if q else
                                   ['min', 'median', 'explicit', 'zero', 'int-zero', 'negative'],
                                   'dense': not q})
+    # three input dimensions
+    for n in ((5,) if q else (5, 9)):
+        for fn in (('quad',) if q else ('quad', 'sin')):
+            for hy in (('scg',) if q else hypers):
+                for bf in ('a', 'b'):
+                    cases.append({'kind': 'gp', 'dim': 3, 'n': n, 'fn': fn, 'hyper': hy, 'bfam': bf,
+                                  'thresholds': ['min', 'explicit'], 'dense': False})
     ctx.run_cases(run_gp, cases, 'fitted-gps', chunksize=1, sample_every=max(1, len(cases) // 4))
     # histories
     hcases = []
@@ -360,7 +386,7 @@ def run(ctx):
             hcases.append({'kind': 'history', 'dim': dim, 'history': [['update', '2xd', 1], ['on'], ['predict'], ['off'],
                                                                       ['update', '2xd', 1], ['on'], ['predict']]})
     ctx.run_cases(run_history, hcases, 'histories', sample_every=max(1, len(hcases) // 4))
-    ctx.rule = ('fitted-gps: full product dimension x evidence size x target function x hyper-parameter state; per GP a full '
+    ctx.rule = ('fitted-gps: full product dimension (1, 2; 3 with a reduced grid) x evidence size x target function x hyper-parameter state; per GP a full '
                 'grid of query points (inside incl. exact bounds, one ulp and 1e-9 outside, far outside) x thresholds x input shapes, '
                 'for binary-fraction and for decimal bounds; '
                 'evaluations = judged (GP, threshold, point) triples; histories: every update sequence of depth <= 3 over '
